@@ -367,13 +367,26 @@ def r1_neighbour(program, rep):
         if v[0] in ("phi", "ite"):
             return all(check_value(x, node, seen)
                        for x in (v[1:] if v[0] == "phi" else v[2:]))
-        return (mk_cmp("In", v, ROUTE), True) in T.all_facts(node)
+        if (mk_cmp("In", v, ROUTE), True) in T.all_facts(node):
+            return True
+        # a value produced by a search (next(...), min(...), a helper) may
+        # well be a key of the table; that is not decided here
+        head = v[1] if v[0] in ("comp", "item") else v
+        if head[0] in ("call", "callv", "opaque"):
+            vague.append(v)
+        return False
+    vague = []
     for n, sub, base, key in loads:
         if (mk_cmp("In", key, ROUTE), True) in T.all_facts(n):
             n_ok += 1
             continue
+        del vague[:]
         if check_value(key, n, frozenset()):
             n_ok += 1
+        elif vague:
+            raise AnalysisError("ner_net: a tree node is looked up by the "
+                                "result of a search (%s) that these rules "
+                                "do not follow" % show(vague[0])[:60])
         else:
             bad.append(sub)
     rep.check(not bad, "C03-R1", inst, "every look-up in the table of tree "
@@ -640,9 +653,8 @@ def r5_reconnect(program, rep):
               construct="a_star arguments", node=fn)
     okx = False
     if ok:
-        want = ("call", ("global", "set"),
-                (("genexp", ("attr", ("elem", SUB), "chip"),
-                  ((SUB, ()),)),), ())
+        # (set(<generator>) and the set comprehension are one term)
+        want = ("setcomp", ("attr", ("elem", SUB), "chip"), ((SUB, ()),))
         okx = plain(EXCL) == plain(want)
     rep.check(okx, "C03-R5", inst, "the excluded chips are the chips of the "
               "orphan's own sub-tree, recomputed from the live tree for "
@@ -673,6 +685,28 @@ def r5_reconnect(program, rep):
                 site = c if view is T else view.call
                 rms.append((c, view, recv, site))
     grafts = [x for x in attach if x[3][0][2] != SUB]
+    if len(rms) != 1:
+        # detached some other way (del x.children[i], pop, a rebuilt list)?
+        # then the search is not in the form read here; with no detaching
+        # operation at all the report below stands
+        other = [n_ for n_ in ast.walk(fn) if (
+            isinstance(n_, ast.Delete) and any(
+                isinstance(t_, ast.Subscript) and
+                isinstance(t_.value, ast.Attribute) and
+                t_.value.attr == "children" for t_ in n_.targets)) or (
+            isinstance(n_, ast.Call) and
+            isinstance(n_.func, ast.Attribute) and
+            n_.func.attr in ("pop", "remove", "clear") and
+            isinstance(n_.func.value, ast.Attribute) and
+            n_.func.value.attr == "children") or (
+            isinstance(n_, (ast.Assign, ast.AugAssign)) and any(
+                isinstance(t_, ast.Attribute) and t_.attr == "children"
+                for t_ in (n_.targets if isinstance(n_, ast.Assign)
+                           else [n_.target])))]
+        if other or len(rms) > 1:
+            raise AnalysisError("avoid_dead_links: a node is detached from "
+                                "its previous parent in a form these rules "
+                                "do not analyse")
     if len(grafts) == 1 and len(rms) == 1 and EXCL is not None:
         an = grafts[0][0]
         c, view, recv, site = rms[0]
